@@ -162,7 +162,16 @@ def declared_job(job) -> dict:
 
     _, api, rule, n = job
     acc = pool.Acc()
-    seq, preset = c05.declared_case(rule, n)
+    if rule == "bigframe":
+        # n bytes of literal in one frame: the length prefix needs four bytes from 2 MiB on
+        from mc.terms import I, L  # noqa: PLC0415
+
+        seq = [(I("http://a/s"), I("http://a/p"), L("first")),
+               (I("http://a/s"), I("http://a/p"), L("z" * n)),
+               (I("http://a/s"), I("http://a/q"), L("last"))]
+        preset = (16, 4, 4)
+    else:
+        seq, preset = c05.declared_case(rule, n)
     case = {"family": "D", "api": api, "rule": rule, "n": n, "cls": "triple",
             "writer": "declared-size", "delimited": True}
     acc.evals += 1
@@ -178,7 +187,7 @@ def declared_job(job) -> dict:
     r = validate(data, True, T.norm_seq(seq))
     if r is not None:
         acc.violation({"api": api, "cls": "triple", "writer": "declared-size", "fail": r[0]},
-                      f"{rule} table declared with {n} slots and {n + 2} distinct keys: {r[1][:300]} "
+                      f"{rule} ({n}): {r[1][:300]} "
                       f"case={case}", case)
     return acc.out()
 
@@ -378,6 +387,8 @@ def run(ctx) -> None:
              for pi in range(len(c14.PRESETS)) for lo, hi in pool.split_range(nb, 2)]
     njobs += [("D", api, rule, n) for api in ("generic", "rdflib")
               for rule in ("name", "prefix", "datatype") for n in (4096, 4097, 5000)]
+    njobs += [("D", api, "bigframe", n) for api in ("generic", "rdflib")
+              for n in (2_097_000, 2_500_000, 4_800_000)]
     mjobs = [("M", name, 1200 if ctx.quick else 20000) for name in MANUAL_SCOPES]
     merged = pool.merge(pool.pmap(shard, mjobs + jobs + rjobs + njobs))
     ctx.add(merged)
